@@ -115,7 +115,8 @@ theorem C01_roundtrip_nested2_whole (ms : List MComp) (trig : Option Bytes) (hd 
 
 /-- **a stand-alone STRUCTURE with BYTE-SIZE** (`encodeMessage (some bs)`): the PDU has at least BYTE-SIZE bytes, the decoder
     returns the dictionary and stops exactly BYTE-SIZE bytes behind the first byte.  `hsize`: the content ends within the
-    BYTE-SIZE — the encoder does not check it (finding `byte-size-structure-content-too-long`). -/
+    BYTE-SIZE — otherwise the (repaired) encoder raises EncodeError: `C01_bytesize_too_long_rejected`, `C01_bytesize_accepted_fits`
+    (fixed finding `byte-size-structure-content-too-long`). -/
 theorem C01_roundtrip_bytesize (bs : Nat) (ms : List MComp) (hd : ∀ m ∈ ms, Described2 m.c m.mid)
     (hneed : Comps.need (MComps.cs ms) + 2 ≤ modelFuel) (hn : Comps.namesOk (MComps.cs ms))
     (hno : Comps.anyEop (MComps.cs ms) = false) (hmid : MComps.midNotLast ms) (hsize : Comps.cur (MComps.cs ms) 0 0 ≤ bs)
@@ -284,15 +285,55 @@ example : decodeMessage none (Comps.toParams (MComps.cs ex2)) ex2Pdu true = .ok 
   C01_roundtrip_nested2_whole ex2 (some ex2Trig) ex2_described (by decide) ex2_names ⟨rfl, rfl, rfl, rfl, trivial⟩ rfl ex2Pdu
     (by decide +kernel) (Except.eq_ok_of_toOption (by decide +kernel))
 
-/-! the excluded point of `sizeSide` (`hsize`): STRUCTURE with BYTE-SIZE 1 and two one-byte parameters — the model's encoder
-    accepts (no padding, no error, no warning) and its decoder then fails; so does odxtools (finding
-    `byte-size-structure-content-too-long`; real code: `encode(s={a:1,b:2}, y=3)` = `22 01 02 03`, `decode` raises DecodeError
-    "Attempted to decode too large instance of structure"). -/
+/-! the excluded point of `sizeSide` (`hsize`): STRUCTURE with BYTE-SIZE 1 and two one-byte parameters.  Before fix
+    `c01-byte-size-structure-content-too-long` (task W16) the encoder accepted (`01 02 03`: no padding, no error, no warning)
+    and the decoder then failed ("Attempted to decode too large instance of structure"); the finding was forced by `hsize`.
+    `BasicStructure.encode_into_pdu` now raises EncodeError (`odxraise`) when the content is longer than BYTE-SIZE, and so does
+    the model (`encodeDop … (.struct (some bs) ps)`).  `hsize` stays a hypothesis of `C01_roundtrip_bytesize`: it is what makes
+    the encoder accept. -/
 def exTooLong : List Param :=
   [.mk "s" none none (.value (.struct (some 1) [(u8 "a" 0).param, (u8 "b" 0).param]) none), (u8 "y" 0).param]
-example : (encodeMessage none exTooLong (.dict [("s", .dict [("a", .atom (.int 1)), ("b", .atom (.int 2))]), ("y", .atom (.int 3))])
-    none true).toOption = some ([1, 2, 3], 0) := by decide +kernel
+
+/-- **the repaired model rejects content that is longer than BYTE-SIZE** (strict mode: EncodeError); with BYTE-SIZE 2 the same
+    value is accepted, and non-strict mode keeps the old PDU -/
+theorem C01_bytesize_too_long_rejected :
+    (match encodeMessage none exTooLong (.dict [("s", .dict [("a", .atom (.int 1)), ("b", .atom (.int 2))]), ("y", .atom (.int 3))])
+      none true with | .error .encode => true | _ => false) = true ∧
+    (encodeMessage none [.mk "s" none none (.value (.struct (some 2) [(u8 "a" 0).param, (u8 "b" 0).param]) none), (u8 "y" 0).param]
+      (.dict [("s", .dict [("a", .atom (.int 1)), ("b", .atom (.int 2))]), ("y", .atom (.int 3))]) none true).toOption = some ([1, 2, 3], 0) ∧
+    (encodeMessage none exTooLong (.dict [("s", .dict [("a", .atom (.int 1)), ("b", .atom (.int 2))]), ("y", .atom (.int 3))])
+      none false).toOption = some ([1, 2, 3], 0) := by
+  refine ⟨?_, ?_, ?_⟩ <;> decide +kernel
 example : (decodeMessage none exTooLong [1, 2, 3] true).toOption.isNone = true := by decide +kernel
+
+/-- **strict mode, every parameter list, value, state, fuel:** a STRUCTURE with BYTE-SIZE that the encoder accepts occupies at
+    most BYTE-SIZE bytes behind its first byte — the condition under which the decoder accepts it ("Attempted to decode too
+    large instance of structure" otherwise).  Before the fix: false (`exTooLong`). -/
+theorem C01_bytesize_accepted_fits (bs : Nat) (ps : List Param) (pv : PVal) (fuel : Nat) (s s' : EncState)
+    (h : encodeDop fuel (.struct (some bs) ps) pv s true = .ok ((), s')) : s'.cursorByte - s.cursorByte ≤ bs := by
+  cases fuel with
+  | zero => simp [encodeDop, run_raise] at h
+  | succ f =>
+    simp only [encodeDop, bind, pure, run_bind, run_getS] at h
+    cases hr : encodeComposite f ps pv s true with
+    | error e => rw [hr] at h; cases h
+    | ok r =>
+      obtain ⟨⟨⟩, s1⟩ := r
+      rw [hr] at h
+      simp only [run_getS, run_ite] at h
+      by_cases hgt : s1.cursorByte - s.cursorByte > bs
+      · rw [if_pos hgt] at h; cases h
+      · rw [if_neg hgt] at h
+        by_cases hlt : s1.cursorByte - s.cursorByte < bs
+        · rw [if_pos hlt] at h
+          simp only [run_setS, Except.ok.injEq, Prod.mk.injEq, true_and] at h
+          rw [← h]
+          show s.cursorByte + bs - s.cursorByte ≤ bs
+          omega
+        · rw [if_neg hlt] at h
+          simp only [run_pure, Except.ok.injEq, Prod.mk.injEq, true_and] at h
+          rw [← h]
+          omega
 
 /-! a stand-alone STRUCTURE with BYTE-SIZE 5 over { s : terminated MIN-MAX; n } — `C01_roundtrip_bytesize` -/
 def exBs : List MComp := [{ c := Comp.ofMinMaxMid ex2S, mid := true }, mc (u8 "n" 7)]
